@@ -675,7 +675,8 @@ impl TTS {
         for cap in full_attr_re.captures_iter(str) {
             let mut amount = 0;
             for c in sub_attr_re.captures_iter(&cap[0]) {
-                amount = std::cmp::max(amount, c[1].parse::<usize>().unwrap());
+                // a tiny 'Rate' makes pauses with more digits than fit -- treat those as the longest possible pause
+                amount = std::cmp::max(amount, c[1].parse::<usize>().unwrap_or(usize::MAX));
             };
             merges_string = merges_string.replace(&cap[0], &replace_with(amount));
         }
